@@ -223,6 +223,10 @@ class Std:
             if d == b'sync:':
                 svc = sim.SyncService(self.fs, packetize=self.packetize, fail=self.fail, bad_id=self.bad_id)
                 svc.truncate_recv = getattr(self, 'truncate_recv', None)
+                tr = getattr(self, 'truncate_reply', None)
+                if tr is not None:
+                    svc.truncate_reply = tr
+                    self.truncate_reply = None      # only the first sync stream is cut short
                 self.sync_services.append(svc)
                 return svc
             for pre in (b'shell:', b'exec:', b'root:', b'reboot:'):
